@@ -166,7 +166,11 @@ func (g *mutGen) walk(v any, t T, steps []step, kinds []string, ctx []string) {
 		}
 	case KRef:
 		if d := g.m.Def(t.Ref); d != nil {
-			g.walk(v, d.Type, steps, kinds, append(append([]string{}, ctx...), "ref"))
+			tag := "ref"
+			if d.Type.Kind == KArray || d.Type.Kind == KMap {
+				tag = "namedcoll"
+			}
+			g.walk(v, d.Type, steps, kinds, append(append([]string{}, ctx...), tag))
 		}
 	case KUStructs:
 		if obj, ok := v.(map[string]any); ok {
